@@ -74,6 +74,9 @@ def run_unit(unit, ctx):
              "calibration": rng.choice(["set", "list", "tuple", "frozenset"]) if v else "set"}
     job = {"defn": defn, "perm_seed": 0 if v == 0 else rng.getrandbits(32), "containers": conts,
            "cse": (i % 2 == 0)}
+    if v % 2 == 1:
+        job["config_object"] = True
+        R.stats.inc("children_reusing_one_config_object")
     if v % 3 == 2:
         # this child generates a definition of another shape first (a build script with several filters)
         shape = [dict(n_control=(0, 0), n_calib=(0, 0)), dict(n_control=(1, 2), n_calib=(0, 0)),
